@@ -153,3 +153,6 @@ def run(chk, replay):
                 if v:
                     chk.violation(util.sig_str(sc["sig"], 3) + "/gated", v,
                                   {"sc": sc, "cfgseed": cfgseed, "ndims": 3, "payload": "wild"})
+    # code -> spec: strains recorded on large generated plotfiles and the assets (Colander!StrainSpec in OpTrace.tla)
+    from harness import optrace
+    optrace.phase(chk, ["strain"], "colander on large inputs", 60, 600, assets=["example_plt_3d", "example_plt_2d", "plt1_Y"], nops=3)
